@@ -74,14 +74,14 @@ PROPS = {
     "C06": {
         "lean_modules": ["RosedVerif.Props.C06"],
         "theorems": [],
-        "groups": ["A-wrap", "A-manip"],
+        "groups": ["A-wrap", "A-manip", "A-commit"],
         "oracle": True,
         "tie": "hand-written model (Model/Manip.lean Wrap, appendWordToWrappedLine, CollapseSpace; Model/Ops.lean WrapOpts) tied by A-wrap, A-manip; Spec.wrapLines tied directly to the real code on stable vocabularies by the oracle",
     },
     "C07": {
         "lean_modules": ["RosedVerif.Props.C07"],
         "theorems": [],
-        "groups": ["A-collapse", "A-wrap", "A-justify", "A-align", "A-indent"],
+        "groups": ["A-collapse", "A-wrap", "A-justify", "A-align", "A-indent", "A-commit"],
         "oracle": True,
         "tie": "hand-written model tied by A-collapse, A-wrap, A-justify, A-align, A-indent",
     },
@@ -95,14 +95,14 @@ PROPS = {
     "C12": {
         "lean_modules": ["RosedVerif.Props.C12"],
         "theorems": [],
-        "groups": ["A-justify", "A-manip"],
+        "groups": ["A-justify", "A-manip", "A-commit"],
         "oracle": True,
         "tie": "hand-written model (Model/Manip.lean JustifyLine; Model/Ops.lean JustifyOpts) tied by A-justify, A-manip",
     },
     "C13": {
         "lean_modules": ["RosedVerif.Props.C13"],
         "theorems": [],
-        "groups": ["A-align", "A-manip"],
+        "groups": ["A-align", "A-manip", "A-commit"],
         "oracle": True,
         "tie": "hand-written model (Model/Manip.lean AlignLine*; Model/Ops.lean AlignOpts) tied by A-align, A-manip",
     },
